@@ -254,21 +254,25 @@ CLAIMED['C06'] = dict(
          'keys; missing = null; sparse and partial coverage) holds initially and is preserved by '
          'EVERY operation of the modelled language — insert, insert_many, update, replacement, '
          'upsert, deletes, reads, index creation and removal — on the domain of scalar index keys '
-         'reached through sub-documents (with symmetric store keys, well-formed documents and '
-         'partial filters that do not tell ==-equal documents apart), hence along every history '
+         'reached through sub-documents, with no further hypothesis (whatever the store keys, the '
+         'documents before the step and the partial filters are), hence along every history '
          '(reachable_uniq_partial); a write that would duplicate a key is rejected; creating a '
          'unique index over duplicates fails with DuplicateKeyError and leaves the index table '
          'unchanged; a successful creation establishes uniqueness for that index (also sparse / '
-         'partial). The unrestricted statement is refuted on kernel-checked witnesses, one of them '
-         'a genuine defect found by the proof attempt (an update whose result is ==-equal to the '
-         'old document skips the check). Tie: histories over all write paths against single / '
-         'nested / compound, sparse and partial unique indexes created before or after the data; '
-         'outcome, _id sequence and index names are compared with the compiled model, and an '
+         'partial). The unrestricted statement is refuted on a kernel-checked witness (a dotted '
+         'index path that dead-ends in a scalar, known finding deadend-null). A genuine defect '
+         'found by the proof attempt (an update whose result is ==-equal to the old document '
+         'skipped the check) is repaired in the library; its witness is a regression example of '
+         'the theorems and is replayed through oracle and correspondence on every run. Tie: histories over all write paths against single / '
+         'nested / compound, sparse and partial unique indexes (also type-sensitive partial '
+         'filters with updates that rewrite a value by an ==-equal one of another type) created '
+         'before or after the data; outcome, _id sequence and index names are compared with the compiled model, and an '
          'independent python evaluation of the rule (multikey-aware) checks every listed unique '
          'index after every step.',
     note='Known findings: multikey (arrays are not multikey), deadend-null (a dotted index path '
-         'ending in a scalar is not null), sparse-null, partial-type-sensitive. Index keys that are '
-         'arrays or embedded documents are outside the theorem domain.')
+         'ending in a scalar is not null), sparse-null (pinned by the library test '
+         'test_sparse_unique_index). Repaired in the library: partial-type-sensitive, '
+         'create-index-precheck. Index keys that are arrays or embedded documents are outside the theorem domain.')
 
 CLAIMED['C07'] = dict(
     technique='Lean 4 heap model (values with object identities, copy primitives, a table of the '
